@@ -230,6 +230,10 @@ def one_case(ctx, r, desc):
                 links.append(p)
         if gone:
             run.write_files(root, {gone: healthy(gone, "gone").encode()})
+        # entries that name nothing to examine: a binary file that changes, a file whose mode changes, a file that is only renamed
+        noise = mode == "pipe-diff" and r.random() < 0.25
+        if noise:
+            run.write_files(root, {"assets/img.bin": b"\x00\x01\x02PNG\x00" * 40, "tools/run.dat": b"data\n", "assets/old name.dat": b"one\ntwo\nthree\n"})
         run.git(root, "add", "-A")
         run.git(root, "commit", "-q", "-m", "base")
         diff = b""
@@ -248,12 +252,16 @@ def one_case(ctx, r, desc):
                     data = data + b"appended\n"
                 with open(full, "wb") as f:
                     f.write(data)
+            if noise:
+                run.write_files(root, {"assets/img.bin": b"\x00\x01\x03PNG\x00" * 41})
+                os.chmod(os.path.join(root, "tools/run.dat"), 0o755)
+                run.git(root, "mv", "assets/old name.dat", "assets/new name.dat")
             if gone:
                 run.git(root, "rm", "-q", gone)
             if ren:
                 os.makedirs(os.path.dirname(os.path.join(root, ren[1])), exist_ok=True)
                 run.git(root, "mv", ren[0], ren[1])
-            if ren or gone:
+            if ren or gone or noise:
                 diff = run.git(root, "diff", "HEAD", "-M", "-U%d" % r.choice([0, 1, 3]))
             else:
                 diff = run.git(root, "diff", "-U%d" % r.choice([0, 1, 3]))
@@ -301,6 +309,7 @@ def one_case(ctx, r, desc):
     special = sorted({seg for p in diff_files for seg in p.split("/")[:-1] if seg in ("a", "b", "dir with space", "dots.in.name")})
     sets = {"mode": [mode], "mechanisms": sorted(mechanisms), "cwd": ["root" if not cwd_rel else "subdir"],
             "symlinks": ["in-scope" if p in scope else "out-of-scope" for p in links],
+            "diff_noise": (["binary+mode+pure-rename"] if noise else []),
             "deletion_in_diff": ([] if not gone else ["only-deletions" if not diff_files else "with-other-files"]),
             "rename": ([] if not ren else ["same-dir" if os.path.dirname(ren[0]) == os.path.dirname(ren[1]) else "other-dir"]),
             "diff_dirs": special, "nglobs_nignores": ["%d/%d" % (len(globs), len(ignores))]}
